@@ -232,3 +232,26 @@ def gen_world(rng, max_side=5, max_agents=7, kinds=None, dead_prob=0.15):
         state.append({"pos": list(pos), "health": health, "ammo": rng.randint(0, 4),
                       "orient": rng.randint(1, 4)})
     return {"rows": rows, "cols": cols, "overlap": overlap, "agents": agents, "state": state}
+
+
+# ----------------------------------------------------------------------------------------------
+# added for C09 (observers): placement in a chosen order
+
+def set_state_in_order(world, state, order=None):
+    """Like RealWorld.set_state, but the active agents are put on the grid in `order` (a list of
+    agent indices; default = listing order), so that the insertion order inside a cell can differ
+    from the listing order of the agents dictionary.  Inactive agents keep the position of the
+    description (the cell they died on) without being on the grid."""
+    world.grid.reset()
+    for a, s in zip(world.agent_list, state):
+        a.health = fl(s["health"])
+        if isinstance(a, AmmoAgent):
+            a.ammo = s["ammo"]
+        if isinstance(a, OrientationAgent):
+            a.orientation = s["orient"]
+        a.position = np.array(s["pos"])
+    for i in (order if order is not None else range(len(world.agent_list))):
+        a, s = world.agent_list[i], state[i]
+        if a.active:
+            if not world.grid.place(a, tuple(s["pos"])):
+                raise ValueError("illegal world description: cannot place " + a.id)
